@@ -172,7 +172,9 @@ pub fn run_scripts() -> (Vec<F>, u64) {
         w.append_c("a", b, Some("in-b-2"), None);
         let go_b = w.append_c("go", b, None, None);
         let out = w.wait(|f| f.topic == "iso.out" && meta_str(f, "frame_id") == Some(go_b.id.to_string()), 20.0);
-        // command defined in B
+        // command defined in B - after the byte-identical script was defined under the same name
+        // in A (nothing prepared for one context may serve the other)
+        w.append_c("isoc.define", a, Some(&format!("{{run: {{|frame| {}}}}}", body)), None);
         w.append_c("isoc.define", b, Some(&format!("{{run: {{|frame| {}}}}}", body)), None);
         let call = w.append_c("isoc.call", b, None, None);
         let cout = w.wait(|f| f.topic == "isoc.recv" && meta_str(f, "frame_id") == Some(call.id.to_string()), 20.0);
